@@ -102,17 +102,22 @@ Proof. intro H. apply cntl_upd, H. Qed.
 Lemma atl_high l s : (length l <= N.to_nat s)%nat -> atl l s = None.
 Proof. intro H. apply nth_overflow, H. Qed.
 
+(** NB: never let the kernel compare [count_if f] with its unfolding by conversion (the
+    literal [all_sq] makes that exponential); always rewrite with this lemma. *)
+Lemma count_if_unfold f : count_if f = N.of_nat (length (filter f all_sq)).
+Proof. reflexivity. Qed.
+
 Lemma count_if_cntl (q:cell->bool) l : length l = 64%nat ->
   count_if (fun s => q (atl l s)) = N.of_nat (cntl q l).
 Proof.
-  intro Hl. unfold count_if. f_equal. rewrite all_sq_seq, filter_map_len.
+  intro Hl. rewrite count_if_unfold. f_equal. rewrite all_sq_seq, filter_map_len.
   rewrite (cntl_seq q l None), Hl. apply (f_equal (@length nat)). apply filter_ext.
   intro i. unfold atl. rewrite Nat2N.id. reflexivity.
 Qed.
 
 Lemma count_if_ext f g : (forall s, s < 64 -> f s = g s) -> count_if f = count_if g.
 Proof.
-  intro H. unfold count_if. f_equal. f_equal. apply filter_ext_in.
+  intro H. rewrite !count_if_unfold. f_equal. apply (f_equal (@length N)). apply filter_ext_in.
   intros s Hs. apply H, in_all_sq, Hs.
 Qed.
 
@@ -177,11 +182,13 @@ Qed.
 Lemma all_sq_nodup : NoDup all_sq.
 Proof. rewrite all_sq_seq. apply Injective_map_NoDup; [intros x y; lia|apply seq_NoDup]. Qed.
 
+Lemma count_one_aux n : (2 <= n)%nat -> N.of_nat n = 1 -> False.
+Proof. lia. Qed.
 Lemma count_one_unique f a b : count_if f = 1 -> a < 64 -> b < 64 -> f a = true -> f b = true -> a = b.
 Proof.
   intros Hc Ha Hb Hfa Hfb. destruct (N.eq_dec a b) as [E|E]; [exact E|exfalso].
   pose proof (filter_two_le f all_sq a b all_sq_nodup (proj2 (in_all_sq a) Ha) (proj2 (in_all_sq b) Hb) E Hfa Hfb) as H.
-  unfold count_if in Hc. revert H Hc. generalize (length (filter f all_sq)). intros n H Hc. lia.
+  rewrite count_if_unfold in Hc. exact (count_one_aux _ H Hc).
 Qed.
 
 Lemma king_sq_unique p c k : kings p c = 1 -> k < 64 -> has p k King c = true -> king_sq p c = Some k.
